@@ -135,3 +135,30 @@ Example C01_nonvacuous :
       mkOStep 4 (EvStats 6 4) (mkSnap 6 4 4 0%Z false 0 [])]
       [99;100;101;102])) = false.
 Proof. vm_compute. reflexivity. Qed.
+
+(* (c) ... and it rejects a blocked writer that does not resume: what the code did
+   under the seeded edit "Write reads stdin.max once, before its back-pressure
+   loop" (writer blocked at limit 1, ReadAll lifts the limit, the writer's next
+   check still sees the stale limit and goes back to polling: yield point 6
+   instead of 8). *)
+Example C01_progress_nonvacuous :
+  spec_ok (Ctl 1 [[OOpen; (OWrite [97;98]); (OWrite [99]); OClose]; [OReadAll; OStats]] [0%nat; 0%nat; 0%nat; 0%nat; 0%nat; 0%nat; 0%nat; 0%nat; 0%nat; 1%nat; 1%nat; 0%nat; 0%nat; 0%nat; 0%nat; 0%nat; 1%nat; 1%nat; 1%nat] (mkCtlObs [(mkOStep 0 EvTau (mkSnap 0 0 0 (0)%Z false 1 []));
+  (mkOStep 1 EvUnit (mkSnap 0 0 0 (1)%Z false 1 []));
+  (mkOStep 0 EvTau (mkSnap 0 0 0 (1)%Z false 1 []));
+  (mkOStep 6 EvTau (mkSnap 0 0 0 (1)%Z false 1 []));
+  (mkOStep 7 EvTau (mkSnap 0 0 0 (1)%Z false 1 []));
+  (mkOStep 8 (EvWrite [97;98] 2 0) (mkSnap 2 0 2 (1)%Z false 1 []));
+  (mkOStep 0 EvTau (mkSnap 2 0 2 (1)%Z false 1 []));
+  (mkOStep 6 EvTau (mkSnap 2 0 2 (1)%Z false 1 []));
+  (mkOStep 7 EvTau (mkSnap 2 0 2 (1)%Z false 1 []));
+  (mkOStep 0 EvTau (mkSnap 2 0 2 (1)%Z false 1 []));
+  (mkOStep 13 EvTau (mkSnap 2 0 2 (1)%Z false 0 []));
+  (mkOStep 6 EvTau (mkSnap 2 0 2 (1)%Z false 0 []));
+  (mkOStep 7 EvTau (mkSnap 2 0 2 (1)%Z false 0 []));
+  (mkOStep 6 EvTau (mkSnap 2 0 2 (1)%Z false 0 []));
+  (mkOStep 7 EvTau (mkSnap 2 0 2 (1)%Z false 0 []));
+  (mkOStep 6 EvTau (mkSnap 2 0 2 (1)%Z false 0 []));
+  (mkOStep 14 EvTau (mkSnap 2 0 2 (1)%Z false 0 []));
+  (mkOStep 15 EvTau (mkSnap 2 0 2 (1)%Z false 0 []));
+  (mkOStep 14 EvTau (mkSnap 2 0 2 (1)%Z false 0 []))] [97;98])) = false.
+Proof. vm_compute. reflexivity. Qed.
